@@ -13,3 +13,6 @@ import AllfedModel.Props.C04
 import AllfedModel.Props.C05
 import AllfedModel.Props.C12
 import AllfedModel.Props.C14
+import AllfedModel.Props.C08
+import AllfedModel.Props.C09
+import AllfedModel.Props.C13
